@@ -920,6 +920,185 @@ fn chain_stream(sink: &mut Sink, env: &mut Env, rng: &mut Rng, ncfg: usize, per:
     }
 }
 
+// ------------------------------------------------------------------ stacks with the same plugin class several times
+/// A configuration may list one plugin class more than once (two ProlongedSoundMarkPlugin instances with different mark
+/// sets, two DefaultInputTextPlugin instances with different tables, two IgnoreYomiganaPlugin instances with different
+/// brackets): every listed instance is created, in order, and the text used for lookup is the composition of the
+/// per-instance specifications in configured order (C07_plugin_stack_reaches speaks about ANY list of plugins).
+/// Loaded through the configuration route (Config JSON -> from_cfg_storage), read behind the tokenizer.
+enum PSpec {
+    Def(Table),
+    Psm(Vec<char>, String),
+    Yomi(Vec<char>, Vec<char>, usize),
+}
+
+fn pspec_json(p: &PSpec) -> Value {
+    match p {
+        PSpec::Def(t) => json!({"plugin": "default", "table": t.pairs, "exempt": t.ign.iter().map(|c| c.to_string()).collect::<Vec<_>>()}),
+        PSpec::Psm(m, s) => json!({"plugin": "psm", "marks": m.iter().map(|c| c.to_string()).collect::<Vec<_>>(), "symbol": s}),
+        PSpec::Yomi(l, r, n) => json!({"plugin": "yomi", "lbs": l.iter().map(|c| c.to_string()).collect::<Vec<_>>(), "rbs": r.iter().map(|c| c.to_string()).collect::<Vec<_>>(), "maxlen": n}),
+    }
+}
+fn pspec_from(v: &Value) -> PSpec {
+    match v["plugin"].as_str().unwrap_or("") {
+        "default" => PSpec::Def(Table {
+            pairs: v["table"].as_array().map(|a| a.iter().map(|p| (p[0].as_str().unwrap().to_string(), p[1].as_str().unwrap().to_string())).collect()).unwrap_or_default(),
+            ign: strs(&v["exempt"]),
+        }),
+        "psm" => PSpec::Psm(strs(&v["marks"]), v["symbol"].as_str().unwrap_or("ー").to_string()),
+        _ => PSpec::Yomi(strs(&v["lbs"]), strs(&v["rbs"]), v["maxlen"].as_u64().unwrap_or(4) as usize),
+    }
+}
+
+fn stack_case(sink: &mut Sink, env: &mut Env, rng: &mut Rng, stack: &[PSpec], texts: &[String], verbose: bool) {
+    use sudachi::analysis::stateful_tokenizer::StatefulTokenizer;
+    use sudachi::prelude::Mode;
+    let y0 = gen_yomi(&mut Rng::new(1), true); // the natural char.def: kanji / hiragana / katakana
+    let cd = env.file("char", &y0.chardef);
+    let mut plugins = vec![];
+    for p in stack {
+        plugins.push(match p {
+            PSpec::Def(t) => {
+                let path = env.file("rewrite", &render_table(t, rng));
+                json!({"class": "com.worksap.nlp.sudachi.DefaultInputTextPlugin", "rewriteDef": path})
+            }
+            PSpec::Psm(m, s) => json!({"class": "com.worksap.nlp.sudachi.ProlongedSoundMarkPlugin",
+                "prolongedSoundMarks": m.iter().map(|c| c.to_string()).collect::<Vec<_>>(), "replacementSymbol": s}),
+            PSpec::Yomi(l, r, n) => json!({"class": "com.worksap.nlp.sudachi.IgnoreYomiganaPlugin",
+                "leftBrackets": l.iter().map(|c| c.to_string()).collect::<Vec<_>>(), "rightBrackets": r.iter().map(|c| c.to_string()).collect::<Vec<_>>(), "maxYomiganaLength": n}),
+        });
+    }
+    let cfg = json!({
+        "path": env.dir.to_string_lossy(), "characterDefinitionFile": cd, "inputTextPlugin": plugins,
+        "oovProviderPlugin": [{"class": "com.worksap.nlp.sudachi.SimpleOovPlugin",
+            "oovPOS": ["名詞", "普通名詞", "一般", "*", "*", "*"], "leftId": 8, "rightId": 8, "cost": 6000}],
+    });
+    let sdesc: Vec<Value> = stack.iter().map(pspec_json).collect();
+    let cfgb = ConfigBuilder::from_bytes(cfg.to_string().as_bytes()).unwrap().build();
+    let d = match catch(|| JapaneseDictionary::from_cfg_storage(&cfgb, SudachiDicData::new(Storage::Owned(env.sys.clone())))) {
+        Ok(Ok(d)) => d,
+        other => {
+            let id = sink.case_rust_only(json!({"kind": "stack", "stack": sdesc, "text": ""}), false);
+            sink.fail(id, &format!("plugin stack {:?} did not load: {:?}", sdesc, other.map(|r| r.map(|_| ()).map_err(|e| format!("{:?}", e)))), "");
+            return;
+        }
+    };
+    let classes: Vec<&str> = stack.iter().map(|p| match p { PSpec::Def(_) => "default", PSpec::Psm(..) => "psm", PSpec::Yomi(..) => "yomi" }).collect();
+    let repeated = classes.iter().enumerate().any(|(i, c)| classes[..i].contains(c));
+    // every configured instance exists
+    {
+        let n = d.input_text_plugins().len();
+        let id = sink.case_rust_only(json!({"kind": "stack", "stack": sdesc, "text": "", "instances": n}), repeated);
+        sink.tag("stack_instances");
+        if n != stack.len() {
+            sink.fail(id, &format!("configuration lists {} input text plugins {:?}, the dictionary holds {}", stack.len(), classes, n), "");
+        }
+    }
+    let spec = |text: &str| -> String {
+        let mut cur = text.to_string();
+        for p in stack {
+            cur = match p {
+                PSpec::Def(t) => spec_normalize(&t.pairs, &t.ign, &cur),
+                PSpec::Psm(m, s) => psm_oracle(m, s, &cur),
+                PSpec::Yomi(l, r, n) => {
+                    let y = YomiCfg { kanji: y0.kanji.clone(), reading: y0.reading.clone(), lbs: l.clone(), rbs: r.clone(), maxlen: *n, chardef: String::new(), chardef_file: None };
+                    yomi_oracle(&y, &cur)
+                }
+            };
+        }
+        cur
+    };
+    let mut tok = StatefulTokenizer::create(&d, false, Mode::C);
+    for text in texts {
+        let want = spec(text);
+        let got = catch(|| {
+            tok.reset().push_str(text);
+            tok.do_tokenize().map_err(|e| format!("{:?}", e))?;
+            Ok::<_, String>(tok.verif_input().current().to_string())
+        });
+        // an empty normalised text is not analysed further; the buffer still holds it
+        let id = sink.case_rust_only(json!({"kind": "stack", "stack": sdesc, "text": text}), repeated && want != *text);
+        sink.tag(if repeated { "stack_with_repeated_class" } else { "stack_distinct_classes" });
+        if verbose {
+            println!("stack {:?}\ntext {:?}\n  behind the tokenizer: {:?}\n  composition of the specifications: {:?}", sdesc, text, got, want);
+        }
+        match got {
+            Ok(Ok(cur)) if cur == want => {}
+            other => {
+                sink.fail(id, &format!("plugin stack {:?} (classes {:?}) on {:?}: text used for lookup {:?}, composition of the per-instance specifications in configured order {:?}", sdesc, classes, text, other, want), "");
+                if !matches!(other, Ok(Ok(_))) {
+                    tok = StatefulTokenizer::create(&d, false, Mode::C);
+                }
+            }
+        }
+    }
+}
+
+fn gen_pspec(rng: &mut Rng, class: u64) -> PSpec {
+    match class {
+        0 => PSpec::Def(gen_table(rng)),
+        1 => {
+            let mut m: Vec<char> = vec![];
+            for _ in 0..1 + rng.below(3) {
+                let c = *rng.pick(&['ー', '〜', '〰', '!', '！', 'w', '-', '.']);
+                if !m.contains(&c) {
+                    m.push(c);
+                }
+            }
+            let s = match rng.below(4) { 0 => "ー".to_string(), 1 => "!".to_string(), 2 => "==".to_string(), _ => m[0].to_string() };
+            PSpec::Psm(m, s)
+        }
+        _ => {
+            let (l, r) = *rng.pick(&[('(', ')'), ('（', '）'), ('[', ']'), ('《', '》')]);
+            PSpec::Yomi(vec![l], vec![r], 1 + rng.below(4) as usize)
+        }
+    }
+}
+
+fn stack_stream(sink: &mut Sink, env: &mut Env, rng: &mut Rng, n: usize) {
+    let tb = |pairs: &[(&str, &str)], ign: &[char]| Table { pairs: pairs.iter().map(|(k, v)| (k.to_string(), v.to_string())).collect(), ign: ign.to_vec() };
+    let st = |v: &[&str]| v.iter().map(|x| x.to_string()).collect::<Vec<String>>();
+    // directed first: the same class twice, so that detection does not depend on the seed
+    let directed: Vec<(Vec<PSpec>, Vec<String>)> = vec![
+        (vec![PSpec::Psm(vec!['ー', '〜'], "ー".into()), PSpec::Psm(vec!['!', '！'], "!".into())], st(&["うまい!!!", "すごーーい！！!", "ゴーール", "a!b"])),
+        (vec![PSpec::Psm(vec!['!'], "!".into()), PSpec::Psm(vec!['ー'], "ー".into()), PSpec::Psm(vec!['w'], "w".into())], st(&["うまい!!!ーーwww", "www"])),
+        (vec![PSpec::Def(tb(&[("a", "x")], &[])), PSpec::Def(tb(&[("x", "yy"), ("b", "c")], &[]))], st(&["ab", "Ａb", "xa", "ba"])),
+        (vec![PSpec::Def(tb(&[], &['Ⅲ'])), PSpec::Def(tb(&[], &[]))], st(&["Ⅲ", "ⅢＡ"])),
+        (vec![PSpec::Yomi(vec!['('], vec![')'], 4), PSpec::Yomi(vec!['（'], vec!['）'], 4)], st(&["徳島(とく)に行（い）く", "徳（と）島(しま)", "行（い）く"])),
+        (vec![PSpec::Psm(vec!['ー'], "ー".into()), PSpec::Def(tb(&[("ー", "-")], &[])), PSpec::Psm(vec!['-'], "=".into())], st(&["ゴーール", "ー-", "ーー--"])),
+    ];
+    for (stack, texts) in &directed {
+        stack_case(sink, env, rng, stack, texts, false);
+    }
+    for _ in 0..n {
+        let len = 2 + rng.below(3) as usize;
+        let mut stack: Vec<PSpec> = (0..len).map(|_| { let c = rng.below(3); gen_pspec(rng, c) }).collect();
+        if rng.chance(2, 3) {
+            // make sure one class occurs at least twice
+            let c = rng.below(3);
+            stack[0] = gen_pspec(rng, c);
+            let last = stack.len() - 1;
+            stack[last] = gen_pspec(rng, c);
+        }
+        let mut texts: Vec<String> = vec![];
+        for _ in 0..5 {
+            let mut t = String::new();
+            for _ in 0..1 + rng.below(5) {
+                match rng.below(7) {
+                    0 => t.push_str("徳（とク）"),
+                    1 => t.push_str("島(ｶﾞ)"),
+                    2 => t.push_str("行[い]"),
+                    3 => { for _ in 0..2 + rng.below(3) { t.push(*rng.pick(&['ー', '〜', '!', '！', 'w', '-', '.'])); } }
+                    4 => { if let Some(PSpec::Def(tbl)) = stack.iter().find(|p| matches!(p, PSpec::Def(_))) { t.push_str(&gen_text(rng, tbl, false)); } }
+                    _ => t.push(*rng.pick(ALPHA)),
+                }
+            }
+            texts.push(t);
+        }
+        stack_case(sink, env, rng, &stack, &texts, false);
+    }
+}
+
 // ------------------------------------------------------------------ sessions: reused buffers
 /// "a pure function of the input and the rewrite table": the same objects are used for a sequence of inputs, the way
 /// sudachi-cli / the Python binding / one StatefulTokenizer + one MorphemeList do it.  Every step is compared with the
@@ -1465,6 +1644,11 @@ fn replay(sink: &mut Sink, env: &mut Env, case: &Value) {
             let mut rng = Rng::new(1);
             deftext_case(sink, env, &mut rng, &def, texts, true);
         }
+        "stack" => {
+            let stack: Vec<PSpec> = case["stack"].as_array().map(|a| a.iter().map(pspec_from).collect()).unwrap_or_default();
+            let mut rng = Rng::new(1);
+            stack_case(sink, env, &mut rng, &stack, &[text.clone()], true);
+        }
         "chain" => {
             let t = Table {
                 pairs: case["table"].as_array().map(|a| a.iter().map(|p| (p[0].as_str().unwrap().to_string(), p[1].as_str().unwrap().to_string())).collect()).unwrap_or_default(),
@@ -1513,7 +1697,7 @@ fn directed(sink: &mut Sink, env: &mut Env, rng: &mut Rng) {
 pub fn run(args: &Args) {
     let mut sink = Sink::new("C07", &args.out, &["Model.Normalize", "Model.RewriteDefText"], args.seed, &args.tier);
     sink.shard_size = 120;
-    sink.rule("(a) DefaultInputTextPlugin: random rewrite.def tables (0..6 keys of 1..3 code points over {a,b,c} or a 53-character alphabet of upper-case / full-width / compatibility / combining / title-case / astral characters; chains of keys that are prefixes of other keys; multi-character values; identity rules (value = key), values that contain their key, values that are another rule's key; 0..3 exempt characters) x texts built from keys, truncated keys, exempt characters and the alphabet; one third of the texts are fast-path texts, half of those are re-run next to an unrelated full-width letter (context pair); (b) ProlongedSoundMarkPlugin: random mark sets incl. regex-special characters x symbols (default, multi-character, empty) x texts dense in marks; (c) IgnoreYomiganaPlugin: the natural, the two shipped and random char.def files (short runs, single points, touching runs, ALL blocks, classes overlapping each other and the brackets) / bracket sets / max length; the kanji and reading classes of the oracle and of the Coq model are derived from the TEXT of the char.def (union of definition lines), never from the implementation; for every definition range the code points begin-1, begin, end, end+1 are probed in the kanji position and in the reading position of an otherwise perfect candidate, and random texts dense in kanji-bracket-reading-bracket candidates draw those positions from both sides of every range end; (e) sessions: one InputBuffer (reset / start_build / plugin rewrite / build) and one StatefulTokenizer + one MorphemeList (reset / do_tokenize / collect_results, which swaps the two input buffers) reused over sequences of 3..8 texts mixing already-normalised and to-be-normalised ones; every step is compared with the specification, the Coq model and a fresh buffer (non-trivial = a text needing the general path in a buffer that held an earlier text); (f) rewrite.def as TEXT: files generated line by line (comments, indented comments, blank / white-space-only lines, exempt characters, rules separated by space / tab / ideographic space / NBSP / several of them, keys and values that contain or start with '#', one-column lines of several characters, lines of three or four columns incl. 'rule # words', repeated keys, LF / CR LF, with or without final line end); accept / reject (+ error kind and line number) compared with the Coq model of the reader and an independent Rust statement of the format, and texts normalised with the loaded plugin compared with normalize_spec of the table the MODEL reads from the same text; sessions additionally contain texts accepted by start_build but rejected at commit (normalisation > 65535 bytes) and texts rejected by start_build, followed by ordinary texts; (d) every Unicode scalar value alone and between neighbours for the shipped tables (stride in the quick tier), and the oracle laws over all scalar values. non-trivial = a key occurs or some character changes (a), a run of >= 2 marks occurs (b), something is removed (c); distinct by generated Coq term");
+    sink.rule("(a) DefaultInputTextPlugin: random rewrite.def tables (0..6 keys of 1..3 code points over {a,b,c} or a 53-character alphabet of upper-case / full-width / compatibility / combining / title-case / astral characters; chains of keys that are prefixes of other keys; multi-character values; identity rules (value = key), values that contain their key, values that are another rule's key; 0..3 exempt characters) x texts built from keys, truncated keys, exempt characters and the alphabet; one third of the texts are fast-path texts, half of those are re-run next to an unrelated full-width letter (context pair); (b) ProlongedSoundMarkPlugin: random mark sets incl. regex-special characters x symbols (default, multi-character, empty) x texts dense in marks; (c) IgnoreYomiganaPlugin: the natural, the two shipped and random char.def files (short runs, single points, touching runs, ALL blocks, classes overlapping each other and the brackets) / bracket sets / max length; the kanji and reading classes of the oracle and of the Coq model are derived from the TEXT of the char.def (union of definition lines), never from the implementation; for every definition range the code points begin-1, begin, end, end+1 are probed in the kanji position and in the reading position of an otherwise perfect candidate, and random texts dense in kanji-bracket-reading-bracket candidates draw those positions from both sides of every range end; (e) sessions: one InputBuffer (reset / start_build / plugin rewrite / build) and one StatefulTokenizer + one MorphemeList (reset / do_tokenize / collect_results, which swaps the two input buffers) reused over sequences of 3..8 texts mixing already-normalised and to-be-normalised ones; every step is compared with the specification, the Coq model and a fresh buffer (non-trivial = a text needing the general path in a buffer that held an earlier text); (f) rewrite.def as TEXT: files generated line by line (comments, indented comments, blank / white-space-only lines, exempt characters, rules separated by space / tab / ideographic space / NBSP / several of them, keys and values that contain or start with '#', one-column lines of several characters, lines of three or four columns incl. 'rule # words', repeated keys, LF / CR LF, with or without final line end); accept / reject (+ error kind and line number) compared with the Coq model of the reader and an independent Rust statement of the format, and texts normalised with the loaded plugin compared with normalize_spec of the table the MODEL reads from the same text; sessions additionally contain texts accepted by start_build but rejected at commit (normalisation > 65535 bytes) and texts rejected by start_build, followed by ordinary texts; (g) plugin stacks of 2..4 instances with the same class listed twice or three times (two / three ProlongedSoundMarkPlugin instances with different marks and symbols, DefaultInputTextPlugin instances with different tables, IgnoreYomiganaPlugin instances with different brackets, mixed) through Config JSON -> from_cfg_storage -> StatefulTokenizer: every configured instance exists and the text behind the tokenizer is the composition of the per-instance specifications in configured order; (d) every Unicode scalar value alone and between neighbours for the shipped tables (stride in the quick tier), and the oracle laws over all scalar values. non-trivial = a key occurs or some character changes (a), a run of >= 2 marks occurs (b), something is removed (c); distinct by generated Coq term");
     let mut env = Env::new(args);
     if let Some(p) = &args.replay {
         let v: Value = serde_json::from_str(&std::fs::read_to_string(p).unwrap()).unwrap();
@@ -1529,6 +1713,7 @@ pub fn run(args: &Args) {
     psm_stream(&mut sink, &mut env, &mut rng, args.n(70, 800), 8);
     yomi_stream(&mut sink, &mut env, &mut rng, args.n(70, 800), 10);
     chain_stream(&mut sink, &mut env, &mut rng, args.n(40, 600), 8);
+    stack_stream(&mut sink, &mut env, &mut rng, args.n(60, 800));
     session_stream(&mut sink, &mut env, &mut rng, args.n(60, 800));
     deftext_stream(&mut sink, &mut env, &mut rng, args.n(150, 3000));
     malformed(&mut sink, &mut env);
